@@ -18,7 +18,7 @@
 //   vnav both <world.json> <depth> <maxcalls> <seed> <nwalks> <len> <out.ndjson>   explore, then walk
 //   vnav replay <world.json> <script.json> <out.ndjson>           one given op sequence
 //   vnav dump <world.json> <out.org.json>                         the OrangeInput that was built
-//   vnav fixture <file.org.json> <seed> <nrays> <nwalks> <npoints> <out.ndjson>
+//   vnav fixture <file.org.json> <seed> <nrays> <nwalks> <npoints> <out.ndjson> [focus.json]
 //        straight rays, random protocol walks and safety probes on a bundled fixture (raw doubles;
 //        tools/oracle_geo.py adds the environment facts before TLC sees the trace)
 #include <array>
@@ -996,6 +996,7 @@ struct FixtureDriver
     std::mt19937_64 rng;
     Real3 lo, hi;
     long calls{0};
+    std::vector<std::pair<Real3, Real3>> focus;  // boxes of small top-level features (from the input)
 
     double u01() { return std::uniform_real_distribution<double>(0, 1)(rng); }
     Real3 random_dir()
@@ -1007,6 +1008,18 @@ struct FixtureDriver
     Real3 random_pos()
     {
         Real3 p;
+        if (!focus.empty() && u01() < 0.6)
+        {
+            // inside (or just around) the bounding box of a randomly chosen top-level volume
+            auto const& b = focus[rng() % focus.size()];
+            for (int k = 0; k < 3; ++k)
+            {
+                double w = b.second[k] - b.first[k];
+                p[k] = b.first[k] - 0.15 * w + 1.3 * w * u01();
+                p[k] = std::min(std::max(p[k], lo[k] + 1e-3 * (hi[k] - lo[k])), hi[k] - 1e-3 * (hi[k] - lo[k]));
+            }
+            return p;
+        }
         for (int k = 0; k < 3; ++k)
             p[k] = lo[k] + (hi[k] - lo[k]) * (0.02 + 0.96 * u01());
         return p;
@@ -1225,7 +1238,7 @@ struct FixtureDriver
 };
 
 int run_fixture(std::string const& file, unsigned long seed, int nrays, int nwalks, int nprobes,
-                verif::NdjsonWriter& out)
+                verif::NdjsonWriter& out, json const& focus)
 {
     Geo geo;
     geo.params = std::make_shared<OrangeParams>(file);
@@ -1240,6 +1253,16 @@ int run_fixture(std::string const& file, unsigned long seed, int nrays, int nwal
         fd.hi[k] = bb.upper()[k];
         if (!std::isfinite(fd.lo[k]) || !std::isfinite(fd.hi[k]))
             throw std::runtime_error("fixture without a finite bounding box");
+    }
+    for (auto const& b : focus)
+    {
+        Real3 a, c;
+        for (int k = 0; k < 3; ++k)
+        {
+            a[k] = b.at(0).at(k).get<double>();
+            c[k] = b.at(1).at(k).get<double>();
+        }
+        fd.focus.push_back({a, c});
     }
     out(json{{"e", "World"}, {"name", file}, {"lo", jr(fd.lo)}, {"hi", jr(fd.hi)}});
     int hid = 0;
@@ -1323,12 +1346,13 @@ int main(int argc, char** argv)
             out(json{{"e", "Close"}});
             return rc;
         }
-        if (mode == "fixture" && argc == 8)
+        if (mode == "fixture" && (argc == 8 || argc == 9))
         {
             verif::NdjsonWriter out(argv[7]);
             g_out = &out;
+            json focus = argc == 9 ? load_json(argv[8]) : json::array();
             int rc = run_fixture(argv[2], std::strtoul(argv[3], nullptr, 10), std::atoi(argv[4]), std::atoi(argv[5]),
-                                 std::atoi(argv[6]), out);
+                                 std::atoi(argv[6]), out, focus);
             out(json{{"e", "Close"}});
             return rc;
         }
